@@ -132,13 +132,48 @@ def run(tier):
                         {"input": name, "parent": parent, "observed": o, "parent_molecule": p, "args": args,
                          "problem": "the result is not the parent sugar with exactly the named transformation applied",
                          "replay_cmd": "./check C14 --replay <this file>"})
+    # an epimerisation combined with a change that rebuilds the skeleton: 'k e X' names a sugar Y of the panel (found by
+    # comparing the plain ring forms, which the epimer cases above judge on their own); then the -ol, -onic and anhydro
+    # forms of 'k e X' must be those of Y
+    hexoses = ["Glc", "Gal", "Man", "Tal", "All", "Gul", "Alt", "Ido"]
+    picks = [(s_, k_) for s_ in hexoses for k_ in (2, 3, 4)]
+    if tier == "quick":
+        picks = r.sample(picks, 8)
+    plain = dict(zip([f"{k_}e{s_}" for s_, k_ in picks] + hexoses, chem.convert_all([f"{k_}e{s_}" for s_, k_ in picks] + hexoses)))
+    combos = []
+    for s_, k_ in picks:
+        e = plain[f"{k_}e{s_}"]["smiles"]
+        ys = [y for y in hexoses if e and plain[y]["smiles"] and orc.same(e, plain[y]["smiles"])]
+        if len(ys) != 1:
+            continue
+        y = ys[0]
+        combos += [(f"{k_}e{s_}-ol", f"{y}-ol"), (f"{k_}e{s_}-onic", f"{y}-onic"), (f"1,6-Anhydro-{k_}e{s_}", f"1,6-Anhydro-{y}"),
+                   (f"Gal(b1-3){k_}e{s_}-ol", f"Gal(b1-3){y}-ol")]
+        if k_ != 3:
+            combos.append((f"3,6-Anhydro-{k_}e{s_}", f"3,6-Anhydro-{y}"))
+    flat = sorted(set(x for c_ in combos for x in c_))
+    co = dict(zip(flat, chem.convert_all(flat)))
+    stats["epimer+skeleton"] = [0, 0]
+    for a_, b_ in combos:
+        x, yv = co[a_]["smiles"], co[b_]["smiles"]
+        if not yv:
+            continue
+        stats["epimer+skeleton"][0] += 1
+        report.case(a_, True)
+        if not x or not orc.same(x, yv):
+            report.fail({"site": "skeleton", "kind": "epimer+skeleton", "what": "wrong-molecule" if x else "empty"},
+                        {"input": a_, "same_as": b_, "observed": x, "expected_molecule": yv,
+                         "problem": "the epimer prefix combined with another skeleton change does not give the named epimer's derivative",
+                         "replay_cmd": "./check C14 --replay <this file>"})
+        else:
+            stats["epimer+skeleton"][1] += 1
     orc.close()
     if broken and not report.violations:
         report.fail({"site": "proof", "kind": "obligation-broken"},
                     {"no_failing_input": True, "what_no_longer_checks": broken, "theorems": names_thm})
     report.assumptions = ["every transformation is specified as a graph edit of the parent's molecule (Spec/Skeleton.v, Spec/Modify.v) and compared by stereo-aware isomorphism (extracted Coq); the parent is the library's own conversion of the unmodified sugar",
                           "positions are 'applicable' when the parent carbon bears a free hydroxyl (deoxy, anhydro, amino) or is a stereocentre (epimer)"]
-    extra = {"rule": "every sugar of a 19-sugar panel (+ the 2-ketohexoses for 'N') x {-ol, -onic, -aric, A, -uronic, n d, n e, 3,6- / 1,6- / 2,3-Anhydro, Pen/Hex/Hep/Oct, N} x applicable positions (quick: 2 per kind), plus sampled pairwise combinations",
+    extra = {"rule": "every sugar of a 19-sugar panel (+ the 2-ketohexoses for 'N') x {-ol, -onic, -aric, A, -uronic, n d, n e, 3,6- / 1,6- / 2,3-Anhydro, Pen/Hex/Hep/Oct, N} x applicable positions (quick: 2 per kind), plus sampled pairwise combinations, plus 'k e X' combined with -ol / -onic / 1,6- and 3,6-Anhydro / as reducing end of a disaccharide against the named epimer's derivative",
              "checked_and_ok_by_kind": {k: v for k, v in stats.items()},
              "print_assumptions": res.assumptions.get(f"Props/{PROP}.v", "").strip().splitlines()[-5:]}
     return report.finish("proof", ob, dis, names_thm, trusted=C.TRUSTED, extra=extra)
